@@ -55,6 +55,16 @@ struct Ctx<'tcx> {
     krate: String,
 }
 
+trait HasParamLocal {
+    fn has_non_region_param_local(&self) -> bool;
+}
+impl<'tcx> HasParamLocal for ty::GenericArgsRef<'tcx> {
+    fn has_non_region_param_local(&self) -> bool {
+        use rustc_middle::ty::TypeVisitableExt;
+        self.has_non_region_param()
+    }
+}
+
 impl<'tcx> Ctx<'tcx> {
     fn fix(&self, s: String) -> String {
         s.replace("crate::", &format!("{}::", self.krate))
@@ -164,6 +174,16 @@ impl<'tcx> Ctx<'tcx> {
                     if c.ty().is_integral() || c.ty().is_bool() {
                         if let Some(si) = c.try_eval_scalar_int(tcx, tenv) {
                             let _ = write!(o, ",\"val\":\"{}\"", si.to_bits_unchecked());
+                        }
+                    } else if let ty::Adt(adt, _) = c.ty().kind() {
+                        // newtype wrappers around an integer (Uint128, Uint64, Decimal...) have scalar
+                        // layout: emit the raw scalar
+                        if adt.is_struct() && !u.args.has_non_region_param_local() {
+                            if let Ok(ConstValue::Scalar(sc)) = c.eval(tcx, tenv, rustc_span::DUMMY_SP) {
+                                if let Ok(si) = sc.try_to_scalar_int() {
+                                    let _ = write!(o, ",\"val\":\"{}\"", si.to_bits_unchecked());
+                                }
+                            }
                         }
                     }
                 }
